@@ -10,6 +10,7 @@ class VmIo:
         self._call_stack = call_stack
         self._reg = reg
         self._unnamed = []
+        self._set_aside = []
 
     @inject(Output)
     def out(self, inst, output):
@@ -32,6 +33,18 @@ class VmIo:
 
     def reset(self):
         self._unnamed.clear()
+        self._set_aside.clear()
+
+    def enter_routine(self):
+        # Values already collected belong to a print or printf of the caller
+        # which is still evaluating its arguments. Output commands inside the
+        # routine start with a list of their own.
+        self._set_aside.append(self._unnamed)
+        self._unnamed = []
+
+    def exit_routine(self):
+        if len(self._set_aside) > 0:
+            self._unnamed = self._set_aside.pop()
 
     @inject(Output)
     def flush(self, output):
